@@ -28,7 +28,7 @@ Proof.
   destruct (inv_marks _ _ _ I n Hn) as [_ H]. rewrite H. unfold count_for, subscribed_count.
   destruct (get_session (run fx evs empty_server) s) as [ss|] eqn:Hss; auto.
   apply find_session_some in Hss as [Hin _].
-  destruct (inv_subs _ _ _ I ss Hin) as [Hw _]. now rewrite match_count_spec.
+  destruct (inv_subs _ _ _ I ss Hin) as [[Hw _] _]. now rewrite match_count_spec.
 Qed.
 
 (* the table holds no entry for a session that is not subscribed, and no session twice *)
